@@ -1,35 +1,78 @@
 from .registry import prop
 from .tp_common import TP_CORE, tp_variants, repo_src
 
+# second unit only: every descriptor the socket layer creates for the library (socket / accept4) enters the exact resource table, and
+# every connect() the library issues is seen by the harness (connect_ex attempt order). Harness code keeps the real functions.
+SOCK_INTERPOSE = ["-Dsocket=verif_socket", "-Daccept4=verif_accept4", "-Dconnect=verif_connect", "-Dclose=verif_close"]
+
 
 @prop("C16")
 def c16():
     shims = ["tp_common.c", "tp_task.c"] + TP_CORE + [repo_src("src/threadpool/threadpool_task.c"), "repo:src/net/socket.c",
              "repo:src/net/socket_options.c", "repo:src/net/socket_address.c", "repo:src/net/utils.c", "repo:src/utils/sys.c"]
+    shims_conn = ["tp_common.c", "tp_conn.c"] + TP_CORE + [repo_src("src/threadpool/threadpool_task.c"),
+                  {"src": "repo:src/net/socket.c", "cflags": SOCK_INTERPOSE},
+                  "repo:src/net/socket_options.c", "repo:src/net/socket_address.c", "repo:src/net/utils.c", "repo:src/utils/sys.c"]
     return dict(
-        units=[dict(kind="rc", driver="C16_task", shims=shims, variants=tp_variants, scale={"quick": 1.0, "thorough": 10.0})],
+        units=[dict(kind="rc", driver="C16_task", shims=shims, variants=tp_variants, scale={"quick": 1.0, "thorough": 10.0}),
+               dict(kind="rc", driver="C16_conn", shims=shims_conn, variants=tp_variants, scale={"quick": 1.0, "thorough": 10.0})],
         level="exploration",
-        rule=("rapidcheck scenarios on an AF_UNIX stream socket pair owned by a 1-thread pool: receive or send task (tp_task_sr_handler) or "
+        rule=("Unit C16_task: rapidcheck scenarios on an AF_UNIX stream socket pair owned by a 1-thread pool: receive or send task (tp_task_sr_handler) or "
               "readiness notifier, buffer 8..2048 bytes with a generated window (offset, transfer_size) inside it, persistent or dispatch "
               "event flags, callback-after-every-read on/off, timeout none/120-200 ms/2 s, first transfer inside tp_task_start_ex or scheduled, "
               "payload fragmented into 1-9 arrivals with short or long (5 x timeout) pauses, data queued before the start, peer stays open / "
               "closes / half-closes, callback policy (continue until full/EOF, or stop / destroy / disable inside the first callback), window "
               "re-arming, small SO_SNDBUF for send tasks, schedule plan, and epoll_ctl/timerfd fault plan. Non-trivial: >=2 callbacks, window "
-              "not at the buffer start, EOF/timeout reported, stop from inside a callback, or a fault. distinct = scenario fingerprints."),
+              "not at the buffer start, EOF/timeout reported, stop from inside a callback, or a fault. "
+              "Unit C16_conn, check pkt_histories: datagram receiver (tp_task_pkt_rcvr_create) on an AF_UNIX SOCK_DGRAM pair or UDP 127.0.0.1, "
+              "1-10 datagrams of 0..buffer+40 bytes whose bytes encode (datagram, offset), sent before/after the start in bursts, with short pauses, "
+              "waits for delivery or waits for a timeout report; buffer 16..512 with the in-tree initial window, a busy prefix or an arbitrary window; "
+              "callback resets the cursors as dns_resolv.c/radius_client.c do, re-arms the initial window, or accumulates; stop/destroy/disable/"
+              "non-CONTINUE in the k-th callback; timeout none/60-100 ms/2 s; CLOSE_ON_DESTROY. Oracle: exact buffer image (guards included) and "
+              "cursors per callback, transferred = min(size, window) (recvfrom truncation), exactly once and in order, peer address, timeouts "
+              "never early and reported when awaited, silence after stop/destroy, descriptor/allocation balance. "
+              "Check conn_histories: accept tasks (tp_task_accept_create / tp_task_bind_accept_create with skt_opts; AF_UNIX path or TCP 127.0.0.1:0; "
+              "0-8 clients that send an id, connected before/after the start, early closes, stale socket file with/without REUSEADDR, failing "
+              "accept4), connect tasks (listening / refusing / never-answering peer, destroy inside the callback) and tp_task_connect_ex_create "
+              "(1-4 addresses: TCP refusing until opened after n attempts, AF_UNIX path that appears after n attempts, silent listener; max_tries "
+              "0-3, retry_delay 0-30 ms, time_limit, ROUND_ROBIN, INITIAL_DELAY, CB_AFTER_EVERY_READ, stop in the k-th failure report, destroy "
+              "mid-flight, invalid argument classes, failing socket()). Oracle: one accept callback per client with a distinct non-blocking socket "
+              "that yields the client's id and its peer port; connect reports exactly once with 0/ECONNREFUSED/ETIMEDOUT after the task was stopped; "
+              "connect_ex attempts (seen at the interposed connect()) follow the documented order exactly, success names the first accepting address, "
+              "terminal -1 after max_tries x addresses attempts (or not before the time limit), failure reports only with the flag and one per failed "
+              "attempt, delays never shorter than configured, no callback inside create, every library-created descriptor closed unless handed over. "
+              "Non-trivial (both checks): >=2 datagrams/connections, stop/destroy from inside a callback, a timeout/refusal/retry observed, or a fault. "
+              "distinct = scenario fingerprints (per-check maximum over variants)."),
         assumptions=["kernel fragmentation is influenced (chunked writes, small SO_SNDBUF), not controlled",
-                     "the harness clock only gates the 'no timeout while data keeps arriving' assertion (made when the measured run is below a third of the timeout)",
-                     "data tasks use persistent or dispatch event flags as the in-tree callers do; one-shot is exercised through the notifier",
-                     "accept/connect/connect_ex and datagram receiver handlers are not covered"],
+                     "the harness clock only gates the 'no timeout while data keeps arriving' assertion (made when the measured run is below a third of the timeout) "
+                     "and bounds timers from below (a timeout / retry delay / time limit is never reported earlier than configured); no latency is asserted",
+                     "data tasks use persistent or dispatch event flags as the in-tree callers do; one-shot is exercised through the notifier and the connect tasks",
+                     "AF_UNIX datagram pairs are reliable and ordered (exact equality asserted); on UDP loopback an incomplete delivery is counted, not judged",
+                     "datagram callbacks always leave a non-empty window (a zero-length recvfrom() consumes the datagram: caller precondition); zero-length "
+                     "datagrams may be dropped silently (what the code does) or reported with size 0",
+                     "TCP cases are skipped and counted when 127.0.0.1 cannot be bound; 'never answering' is a backlog-0 listener with a filled accept queue and "
+                     "only 'at most one report, ETIMEDOUT not early' is asserted for it",
+                     "connect_ex with addrs_count = 0 or a NULL callback is not generated (unchecked caller preconditions); tp_task_connect_send_create and "
+                     "tp_task_bind_accept_multi_create are not covered",
+                     "with an injected epoll_ctl/timerfd/socket fault only clean failure is asserted (no leak, no callback after a failed start or after stop)"],
     )
 
 
 MANIFEST = {"C16": dict(
     engine="tp-sched",
-    technique="rapidcheck I/O-task histories on real sockets with pattern payloads, guard bytes, cursor model, fence-sequenced silence checks and descriptor accounting",
+    technique=("rapidcheck I/O-task histories on real sockets with pattern payloads, guard bytes, cursor model, fence-sequenced silence checks and "
+               "descriptor accounting; second unit: datagram / accept / connect / connect_ex histories with the socket layer interposed "
+               "(exact descriptor table, connect() attempt log) and a reference model of the documented connect_ex retry order"),
     text=("Generated receive/send/notify task histories run on the real pool; payload bytes identify their stream offset, the buffer is "
           "guarded on both sides, and every callback records error/eof/transferred/cursors. Checked: bytes in order inside the window only, "
           "transferred counts add up, cursor evolution, EOF once, timeouts when idle and not while active, re-arming on CONTINUE, no callback "
-          "after stop/destroy/disable on the owner thread, every library-created descriptor closed."),
+          "after stop/destroy/disable on the owner thread, every library-created descriptor closed. A second driver covers the datagram receiver "
+          "(exact buffer image per datagram, truncation to the window, exactly-once in-order delivery on AF_UNIX pairs, UDP loopback), accept tasks "
+          "(one callback per client, socket identity by a client id, non-blocking, peer address, bind over stale socket files, failing accept), "
+          "connect tasks (success / ECONNREFUSED / timeout exactly once, task stopped before the callback) and connect_ex (attempt order, retry "
+          "counts, round robin, delays and time limit bounded from below, per-attempt reports, argument validation, descriptor balance on every path)."),
     design_ref="DESIGN.md section 4 C16",
-    note="Stream socket pairs only (no TCP accept/connect handlers, no datagram receiver); arrival fragmentation is influenced, not controlled.",
+    note=("Arrival fragmentation is influenced, not controlled. tp_task_connect_send_create and tp_task_bind_accept_multi_create are not covered. "
+          "Two connect_ex defects found by the second unit are guarded by predicates connect_ex_retry_timer_survives_stop_when_timeout_is_0 and "
+          "connect_ex_address_index_reset_by_task_start (notes/C16_conn.md)."),
 )}
